@@ -788,7 +788,22 @@ def _dc_fields(ex, st, args, kwargs):
     yield st, tuple(items)
 
 
+def _deepcopy(ex, st, args, kwargs):
+    from .contracts import pure_result
+
+    v = st.deref(args[0])
+    if isinstance(v, Opaque):
+        yield st, pure_result(ex, st, "copy.deepcopy", f"u:{v.kind}", [v])
+    elif isinstance(v, (SV, int, str, bool, type(None), tuple)):
+        yield st, args[0]
+    else:
+        c = v.clone()
+        c.frozen = False
+        yield st, st.alloc(c)
+
+
 FUNCS = {
+    "copy.deepcopy": _deepcopy, "copy.copy": _deepcopy,
     "dataclasses.fields": _dc_fields,
     "round": _round,
     "operator.eq": _operator(ast.Eq), "operator.ne": _operator(ast.NotEq), "operator.lt": _operator(ast.Lt),
